@@ -14,6 +14,7 @@ import Driver.Sb
 import Driver.Cmd
 import Driver.Bl
 import Driver.Rc
+import Driver.Tm
 /-!
 # Line-protocol driver
 
@@ -148,6 +149,7 @@ def step (st : St) (line : String) : St × String :=
     else if h.startsWith "sb." || h.startsWith "va." then (st, DrvSb.sbStep ws)
     else if h.startsWith "cmd." then (st, DrvCmd.cmdStep ws)
     else if h.startsWith "ble." then (st, DrvBl.blStep ws)
+    else if h.startsWith "tm." then (st, DrvTm.tmStep ws)
     else if h.startsWith "rc." then let r := DrvRc.rcStep st.rc ws; ({ st with rc := r.1 }, r.2)
     else (st, "bad-op")
 
